@@ -78,6 +78,22 @@ Verdict(r) ==
                              want == IF Len(t) < w THEN t \o <<0>> ELSE t
                          IN ~(r.cells[k][1] = want /\ r.cells[k][2] = 1)}
            IN IF bad = {} THEN Pass ELSE Fail("text->raw->text", MinOf(bad) - 1)
+      [] r.kind = "declare-seq" ->
+           \* several declarations in one bank of the user's own, one after the other: probes[k] = sequence of
+           \* <<start, width, outcome>>.  No two values overlap: a declaration that shares a location with one ACCEPTED
+           \* before it is refused (a refused declaration takes nothing away from the accepted ones); one that touches
+           \* nothing declared before is accepted; one that only touches what a REFUSED declaration asked for may go either
+           \* way (the library keeps the locations a refused value had claimed before the clash was found)
+           LET Locs(d) == d[1]..(d[1] + d[2] - 1)
+               Taken(p, j) == UNION {Locs(p[q]) : q \in {q2 \in 1..(j - 1) : p[q2][3] = "ok"}}
+               Asked(p, j) == UNION {Locs(p[q]) : q \in 1..(j - 1)}
+               badp == {k \in 1..Len(r.probes) :
+                          \E j \in 1..Len(r.probes[k]) :
+                              LET d == r.probes[k][j] IN
+                              IF Locs(d) \cap Taken(r.probes[k], j) # {} THEN d[3] # "MemoryLocationOverlap"
+                              ELSE IF Locs(d) \cap Asked(r.probes[k], j) = {} THEN d[3] # "ok"
+                              ELSE d[3] \notin {"ok", "MemoryLocationOverlap"}}
+           IN IF badp = {} THEN Pass ELSE Fail("declaration-overlap", MinOf(badp))
       [] r.kind = "declare" ->
            \* a user declares one value in a bank of his own: probes[k] = <<has lock byte, has latch, types, outcome>>.
            \* Lockable locations only exist in banks that have a lock byte (IEC 62386-102 9.10.4: the lock byte at
